@@ -593,7 +593,11 @@ class Compiler:
                 raise CompilationError('subquery has too many columns', node.right)
             right = EvalConstantSubquery1D(right)
 
-        op = OPERATORS[type(node)][0]
+        op = types.function_lookup(OPERATORS, type(node), [left, right])
+        if op is None:
+            raise CompilationError(
+                f'operator "{type(node).__name__.lower()}('
+                f'{types.name(left.dtype)}, {types.name(right.dtype)})" not supported', node)
         return op(left, right)
 
     @_compile.register
